@@ -90,6 +90,9 @@ const (
 	OFIsNaN
 	OFIsInf
 	OFFloor    // roundToIntegral RTN
+	OFTrunc    // roundToIntegral RTZ
+	OFCeil     // roundToIntegral RTP
+	OFSqrt
 	OFFromSBV  // to_fp signed
 	OFFromUBV  // to_fp unsigned
 	OFToSBV    // fp.to_sbv RTZ, aux = width (unspecified outside range: callers guard)
@@ -104,7 +107,7 @@ var opNames = map[Op]string{
 	OBAnd: "bvand", OBOr: "bvor", OBXor: "bvxor", OShl: "bvshl", OLShr: "bvlshr", OAShr: "bvashr", ONeg: "bvneg", OBNot: "bvnot",
 	OUlt: "bvult", OUle: "bvule", OSlt: "bvslt", OSle: "bvsle", OConcat: "concat",
 	OFAdd: "fp.add RNE", OFSub: "fp.sub RNE", OFMul: "fp.mul RNE", OFDiv: "fp.div RNE", OFNeg: "fp.neg", OFAbs: "fp.abs",
-	OFLt: "fp.lt", OFLe: "fp.leq", OFEq: "fp.eq", OFIsNaN: "fp.isNaN", OFIsInf: "fp.isInfinite", OFFloor: "fp.roundToIntegral RTN",
+	OFLt: "fp.lt", OFLe: "fp.leq", OFEq: "fp.eq", OFIsNaN: "fp.isNaN", OFIsInf: "fp.isInfinite", OFFloor: "fp.roundToIntegral RTN", OFTrunc: "fp.roundToIntegral RTZ", OFCeil: "fp.roundToIntegral RTP", OFSqrt: "fp.sqrt RNE",
 }
 
 type Term struct {
@@ -489,6 +492,12 @@ func (c *Ctx) FPUn(op Op, a *Term) *Term {
 			return c.FPConst(math.Abs(x))
 		case OFFloor:
 			return c.FPConst(math.Floor(x))
+		case OFTrunc:
+			return c.FPConst(math.Trunc(x))
+		case OFCeil:
+			return c.FPConst(math.Ceil(x))
+		case OFSqrt:
+			return c.FPConst(math.Sqrt(x))
 		case OFIsNaN:
 			return c.BoolConst(math.IsNaN(x))
 		case OFIsInf:
